@@ -15,9 +15,12 @@ out.append("")
 out.append("### B.2 Known findings (genuine defects recorded, not repaired)\n")
 out.append("| Property | Key | What fails | Witness (must still fail) |")
 out.append("|---|---|---|---|")
+rows = {}
 for e in kf:
     if e["status"] == "known":
-        out.append("| %s | `%s` | %s | `%s` |" % (e["property"], e["key"], e["summary"][:330].replace("|", "\\|"), e["witness"]))
+        rows.setdefault((e["property"], e["key"]), [e["summary"], []])[1].append(e["witness"])
+for (prop, key), (summ, wits) in rows.items():
+    out.append("| %s | `%s` | %s | %s |" % (prop, key, summ[:330].replace("|", "\\|"), ", ".join("`%s`" % w for w in wits)))
 out.append("")
 out.append("### B.3 Seeded changes (written by independent sub-agents from the property text only) and which check catches them\n")
 out.append("| Seed | Breaks | Summary | Needs | Confirmed (demo fails with / passes without, suite green) | Caught by |")
@@ -40,4 +43,4 @@ if a in s:
 else:
     s += "\n\n## Appendix B - generated tables (tools/gen_tables.py)\n\n" + a + "\n" + text + "\n" + b + "\n"
 open(p, "w").write(s)
-print("tables written:", sum(1 for e in kf if e["status"] == "fixed"), "fixed,", sum(1 for e in kf if e["status"] == "known"), "known")
+print("tables written:", sum(1 for e in kf if e["status"] == "fixed"), "fixed,", len(rows), "known")
